@@ -8,6 +8,9 @@ import (
 )
 
 func (r *Repo) Get(_ context.Context, id string) (model.Transaction, error) {
+	r.m.RLock()
+	defer r.m.RUnlock()
+
 	if id == model.MainTxId {
 		return model.Transaction{
 			Id:       id,
